@@ -541,6 +541,10 @@ func (f *Composite) wrapErrorUnpack(src []byte, isVariableLength bool) (int, err
 }
 
 func (f *Composite) unpack(data []byte, isVariableLength bool) (int, string, error) {
+	// forget the subfields set before: what is present after unpacking is
+	// defined by the data alone
+	f.setSubfields = make(map[string]struct{})
+
 	if f.bitmap() != nil {
 		return f.unpackSubfieldsByBitmap(data)
 	}
